@@ -238,6 +238,7 @@ def _map_code_objects(ctx: dict[str, Any]) -> bool:
     if not walk(roots[0], ctx["codes"][0]):
         res["inconclusive"] = "code-object-mapping"
         return False
+    ctx["all_codes"] = list(ctx["codes"])
     ctx["codes"] = mapping
     return True
 
@@ -371,11 +372,19 @@ def _check_branches(ctx: dict[str, Any], window: dict[str, Any], trace: Any) -> 
         code = ctx["codes"][cid]
         events = obs.branches(code)
         for j in jumps:
-            if j["node"] is None or not j["last"]:
-                continue
-            pid = by_node.get((cid, j["node"].index))
+            pid = by_node.get((cid, j["node"].index)) if j["node"] is not None and j["last"] else None
             if pid is None:
-                continue  # reported by _check_registration
+                # Ground-truth direction of the registration demand: a conditional jump the interpreter really executed must be
+                # a predicate, also when pynguin's CFG lost the block (static part (4) only sees live CFG nodes).  Jumps in
+                # genuinely dead code are never executed and therefore never demanded.
+                if obs.branch_count(code, j["offset"]) > 0:
+                    res["failures"].append([f"executed-jump-without-predicate|{j['opname']}",
+                                            f"{window['what']} metrics={ctx.get('metrics')}: {j['opname']} at offset {j['offset']} "
+                                            f"(line {j['line']}) of {code.co_name!r} was executed "
+                                            f"{obs.branch_count(code, j['offset'])}x but no predicate is registered for it "
+                                            f"(CFG node: {'pruned/absent' if j['node'] is None else j['node'].index})\n"
+                                            f"{_numbered(ctx, j['line'] or 1, 25)}"])
+                continue
             dsts = {d for s, d in events if s == j["offset"]}
             fell = j["fall"] in dsts
             jumped = any(d != j["fall"] for d in dsts)
@@ -418,6 +427,13 @@ def _check_branches(ctx: dict[str, Any], window: dict[str, Any], trace: Any) -> 
                 res["labels"].append("one-sided:" + op)
             elif jumped and fell:
                 res["labels"].append("both-sides:" + op)
+    # code objects pynguin did not register at all must not have executed any conditional jump either
+    mapped = {id(c) for c in ctx["codes"].values()}
+    for code in ctx["all_codes"]:
+        if id(code) not in mapped and obs.branches(code):
+            res["failures"].append(["executed-jump-without-predicate|unregistered-code-object",
+                                    f"{window['what']}: {code.co_name!r} (line {code.co_firstlineno}) executed conditional jumps "
+                                    f"but is not a registered code object"])
     # entry of branch-less code objects
     for cid in sp.branch_less_code_objects:
         code = ctx["codes"][cid]
